@@ -45,7 +45,7 @@ public:
     static vsched *&current() { static vsched *c = nullptr; return c; }
     static thread_ctl *&self() { static thread_local thread_ctl *s = nullptr; return s; }
 
-    void install() { current() = this; g_handler.store(this, std::memory_order_release); }
+    void install() { _log.reserve(8192); current() = this; g_handler.store(this, std::memory_order_release); }
     void uninstall() { g_handler.store(nullptr, std::memory_order_release); current() = nullptr; }
 
     // ---- controller side -------------------------------------------------------------------
@@ -124,11 +124,15 @@ public:
     std::vector<logged_event> &log() { return _log; }
     void clear_log() { _log.clear(); }
     bool log_enabled = true;
+    // operations for which the harness states that their outcome does not depend on the schedule
+    // (documented per replayer); they are executed without giving up the run token
+    bool (*no_yield)(const event &) = nullptr;
 
     // ---- handler interface (called on managed and unmanaged threads) -----------------------
     void pre(event &e) override {
         thread_ctl *s = self();
         if (!s) return;
+        if (no_yield && no_yield(e)) return;   // logged, but not a scheduling point
         s->pending = e;
         s->is_wait = false;
         park(s);
